@@ -187,6 +187,9 @@ var checkC03 = def("C03/minimax", func(c searchCase) error {
 	if ref.SawStalemate {
 		labels, nt = append(labels, "stalemate-in-tree"), true
 	}
+	if ref.SawStalemateInQuiescence {
+		labels = append(labels, "stalemate-in-quiescence")
+	}
 	if ref.SawDraw {
 		labels, nt = append(labels, "draw-in-tree"), true
 	}
@@ -269,6 +272,78 @@ func matingEnding(t *rapid.T) oracle.State {
 	}
 }
 
+// blockadeEnding draws a position with locked pawn pairs and few pieces: kings get boxed in
+// by their own pawns, so stalemates occur with the stalemated side ahead in material.
+func blockadeEnding(t *rapid.T) oracle.State { return blockadeEndingN(t, 3) }
+
+func blockadeEndingN(t *rapid.T, maxExtras int) oracle.State {
+	for try := 0; ; try++ {
+		var p oracle.Pos
+		p.EP = -1
+		npairs := rapid.IntRange(2, 5).Draw(t, "pairs")
+		for i := 0; i < npairs; i++ {
+			f := rapid.IntRange(0, 7).Draw(t, "file")
+			r := rapid.IntRange(1, 5).Draw(t, "rank")
+			if p.Sq[oracle.Sq(f, r)] != 0 || p.Sq[oracle.Sq(f, r+1)] != 0 {
+				continue
+			}
+			p.Sq[oracle.Sq(f, r)] = oracle.Pawn
+			p.Sq[oracle.Sq(f, r+1)] = -oracle.Pawn
+		}
+		place := func(pc int8, cands []int) bool {
+			var free []int
+			for _, s := range cands {
+				if p.Sq[s] == 0 {
+					free = append(free, s)
+				}
+			}
+			if len(free) == 0 {
+				return false
+			}
+			p.Sq[free[rapid.IntRange(0, len(free)-1).Draw(t, "sq")]] = pc
+			return true
+		}
+		var edge, all []int
+		for s := 0; s < 64; s++ {
+			all = append(all, s)
+			if f, r := oracle.File(s), oracle.Rank(s); f == 0 || f == 7 || r == 0 || r == 7 {
+				edge = append(edge, s)
+			}
+		}
+		if !place(oracle.King, edge) || !place(-oracle.King, edge) {
+			continue
+		}
+		wk, bk := p.KingSq(true), p.KingSq(false)
+		if df, dr := oracle.File(wk)-oracle.File(bk), oracle.Rank(wk)-oracle.Rank(bk); df >= -1 && df <= 1 && dr >= -1 && dr <= 1 {
+			continue
+		}
+		for i, n := 0, rapid.IntRange(0, maxExtras).Draw(t, "extras"); i < n; i++ {
+			pc := rapid.SampledFrom([]int8{oracle.Knight, oracle.Bishop, oracle.Queen, oracle.Rook, oracle.Pawn}).Draw(t, "pc")
+			if rapid.Bool().Draw(t, "black") {
+				pc = -pc
+			}
+			cands := all
+			if pc == oracle.Pawn || pc == -oracle.Pawn {
+				cands = nil
+				for _, s := range all {
+					if r := oracle.Rank(s); r >= 1 && r <= 6 {
+						cands = append(cands, s)
+					}
+				}
+			}
+			place(pc, cands)
+		}
+		p.White = rapid.Bool().Draw(t, "stm")
+		if p.InCheck(!p.White) {
+			p.White = !p.White
+			if p.InCheck(!p.White) {
+				continue
+			}
+		}
+		return oracle.State{Pos: p, Half: 0, Full: 30}
+	}
+}
+
 // estimateDepth returns the largest depth whose exhaustive tree is expected to stay within
 // budget, from the mobility of both sides at the root.
 func estimateDepth(g *oracle.Game, cfg searchConfig, maxDepth int, budget float64) int {
@@ -309,12 +384,20 @@ func genSearchCase(t *rapid.T, configs []searchConfig) searchCase {
 	var gc gen.GameCase
 	var g *oracle.Game
 	mating := false
-	switch rapid.IntRange(0, 9).Draw(t, "rootkind") {
-	case 0, 1, 2: // mating endings, possibly with a little history
+	rootkind := rapid.IntRange(0, 9).Draw(t, "rootkind")
+	if cfg.Quiescence && rapid.IntRange(0, 2).Draw(t, "stalematerich") == 0 {
+		// quiescence leaves must meet stalemates and mates at the horizon: K+Q(+piece) v K near the edge
+		rootkind = 0
+	}
+	switch rootkind {
+	case 0, 1, 2: // mating endings (or locked-pawn endings), possibly with a little history
 		st := matingEnding(t)
+		if rapid.IntRange(0, 2).Draw(t, "blockade") == 0 {
+			st = blockadeEnding(t)
+		}
 		gc, g = gen.Play(t, st, 4, gen.Policy{0, 0, 0, 0, 1, 0, 0, 6, 0, 6})
 		mating = true
-		if rapid.IntRange(0, 3).Draw(t, "lightcfg") > 0 {
+		if !cfg.Quiescence && rapid.IntRange(0, 3).Draw(t, "lightcfg") > 0 {
 			for _, c := range configs {
 				if c.Name == lightConfigs[rapid.IntRange(0, len(lightConfigs)-1).Draw(t, "light")] {
 					cfg = c
@@ -368,6 +451,26 @@ func TestC03_minimax(t *testing.T) {
 		return genSearchCase(t, searchConfigs)
 	}, func(c searchCase) error {
 		stats.Sample("C03/minimax", c)
+		return checkC03(c)
+	})
+}
+
+// TestC03_horizon aims the same oracle at the search horizon of quiescence configurations:
+// tiny locked-pawn endings, depth 1-3, where a stalemate or mate sits exactly on a leaf and
+// the side delivering it has few alternatives (so that the leaf's value decides the root).
+func TestC03_horizon(t *testing.T) {
+	var quiet []searchConfig
+	for _, c := range searchConfigs {
+		if c.Quiescence && !c.Heavy {
+			quiet = append(quiet, c)
+		}
+	}
+	runRapid(t, "C03/minimax", 40000, func(t *rapid.T) searchCase {
+		cfg := quiet[rapid.IntRange(0, len(quiet)-1).Draw(t, "config")]
+		st := blockadeEndingN(t, rapid.SampledFrom([]int{0, 0, 0, 1, 2}).Draw(t, "maxextras"))
+		gc, _ := gen.Play(t, st, 3, gen.Policy{1, 0, 0, 0, 1, 0, 0, 1, 1, 4})
+		return searchCase{FEN: gc.FEN, Moves: gc.Moves, Config: cfg.Name, Param: 1, Depth: rapid.IntRange(1, 3).Draw(t, "depth")}
+	}, func(c searchCase) error {
 		return checkC03(c)
 	})
 }
